@@ -164,9 +164,10 @@ func (k Key) ValidateChannel(ch *Channel) bool {
 		maxDepth = len(parts)
 	}
 
-	// Get the first bit, whether the key is the exact match or not
+	// Get the first bit, whether the key is the exact match or not. A channel ending with
+	// a multi-level wildcard reaches below its last level, an exact target never covers it.
 	keyIsExactTarget := ((targetPath >> 23) & 1) == 1
-	if len(parts) < maxDepth || (keyIsExactTarget && len(parts) != maxDepth) {
+	if len(parts) < maxDepth || (keyIsExactTarget && (wc || len(parts) != maxDepth)) {
 		return false
 	}
 
